@@ -3,7 +3,7 @@
    linter is a set of oracles constrained by [linter_ok]).  Real interleavings are sampled by the
    harness, not proved. *)
 From Coq Require Import List NArith Bool Permutation.
-From Regal Require Import Model.Lsp Proofs.Lsp.
+From Regal Require Import Base.StrLit Model.Lsp Proofs.Lsp Model.LspCache Gen.LspShape Proofs.LspCache.
 Import ListNotations.
 Open Scope N_scope.
 
@@ -113,3 +113,59 @@ Print Assumptions set_for_rules_merge.
 Example set_for_rules_merge_nonvacuous :
   merge_rules [2] (merge_rules [1] [(1, 5); (2, 6); (3, 7)] [(1, 8)]) [(2, 9)] = [(3, 7); (1, 8); (2, 9)].
 Proof. reflexivity. Qed.
+
+(* ------------------------------------------------------------------ the cache as shared state *)
+(* The job-atomic model and [set_for_rules_merge] assume that one cache operation on one map entry is ATOMIC and
+   that values handed out are immutable.  Model/LspCache.v models the cache at the granularity of the atomic
+   accesses of its concurrent maps; the cache-level harness compares it with the implementation on sequential
+   histories over every exported function and on concurrent histories (results and final state must be explained
+   by an interleaving of the modelled atomic steps: [explained]).
+
+   With the atomic operation, two partial updates of the same file for disjoint rule sets (file-lint worker:
+   non-aggregate rules; workspace-lint worker: aggregate rules) give the same diagnostics in both orders up to
+   order, touch no other entry, and neither update is lost. *)
+Theorem cache_disjoint_updates_commute :
+  forall (s : cstate) (u : uri) (R1 R2 : list rule) (n1 n2 : list diag),
+    (forall r, mem r R1 = true -> mem r R2 = false) ->
+    (forall d, In d n1 -> mem (code d) R1 = true) ->
+    (forall d, In d n2 -> mem (code d) R2 = true) ->
+    let a := OSetDiagsForRules u R1 n1 in
+    let b := OSetDiagsForRules u R2 n2 in
+    Permutation (diags_of (state_after [a; b] s) u) (diags_of (state_after [b; a] s) u) /\
+    (forall f v, f <> FDiags \/ v <> u -> a_get (state_after [a; b] s f) v = a_get (state_after [b; a] s f) v) /\
+    (forall d, In d n1 \/ In d n2 -> In d (diags_of (state_after [a; b] s) u)).
+Proof. exact disjoint_updates_commute_lemma. Qed.
+Print Assumptions cache_disjoint_updates_commute.
+
+(* The atomicity assumption is necessary: with the same update written as Get, compute, Set (every access still
+   locked) some interleaving of two goroutines loses the update of either one; with the atomic operation none does. *)
+Theorem cache_split_update_refuted :
+  let t1 := [(split_for_rules 1 [1] [(1, 8)], RUnit)] in
+  let t2 := [(split_for_rules 1 [2] [(2, 9)], RUnit)] in
+  reachable 4 (lacks (1, 8)) [t1; t2] w_state = true /\
+  reachable 4 (lacks (2, 9)) [t1; t2] w_state = true /\
+  reachable 4 (fun s => lacks (1, 8) s || lacks (2, 9) s)
+            [thread_of [(OSetDiagsForRules 1 [1] [(1, 8)], RUnit)]; thread_of [(OSetDiagsForRules 1 [2] [(2, 9)], RUnit)]] w_state = false.
+Proof. exact split_update_lemma. Qed.
+Print Assumptions cache_split_update_refuted.
+
+(* Tie to the source, re-proved on every run against the regenerated Gen/LspShape.v: the functions of package
+   internal/lsp/cache, the accesses each makes to the concurrent maps (map, method, key expression), the calls
+   between them, every write through a slice or map, and the Get...Set sequences over cache items in
+   internal/lsp/*.go are exactly what the model was written from; no function reads an entry with Get and writes
+   the same entry with Set (a read-modify-write is ONE UpdateValue); every write through a slice or map goes to a
+   variable the function has just created (no in-place filtering `x[:0]` of a stored or handed-out slice); and the
+   program of each modelled operation makes exactly the listed accesses. *)
+Theorem cache_shape_match :
+  cache_found = true /\
+  cache_fields = map (fun f => lit (field_name f)) all_fields /\
+  cache_funcs = map lit cache_funcs_modelled /\
+  cache_sites = map render_site cache_sites_modelled /\
+  cache_calls = map (fun c => (lit (fst c), lit (snd c))) cache_calls_modelled /\
+  cache_inplace = map render_inplace cache_inplace_modelled /\
+  lsp_cache_rmw = map render_rmw lsp_cache_rmw_modelled /\
+  no_get_then_set cache_sites_modelled = true /\
+  inplace_only_fresh cache_inplace_modelled = true /\
+  samples_ok (tl cache_funcs_modelled) sample_ops = true.
+Proof. exact cache_shape_match_lemma. Qed.
+Print Assumptions cache_shape_match.
